@@ -194,6 +194,9 @@ func (d *Datastore) lowlevelTransactionSet(ctx context.Context, transaction *typ
 	// where the New flag is set
 	flagNew.SetNewFlag()
 
+	// the stored content of the intents before this transaction
+	oldIntentContents := map[string]tree.UpdateSlice{}
+
 	// iterate through all the intents
 	for _, intent := range transaction.GetNewIntents() {
 		// update the TreeContext to reflect the actual owner (intent name)
@@ -206,6 +209,7 @@ func (d *Datastore) lowlevelTransactionSet(ctx context.Context, transaction *typ
 		if err != nil {
 			return nil, err
 		}
+		oldIntentContents[intent.GetName()] = oldIntentContent
 
 		// store the old intent content in the transaction as the old intent.
 		err = transaction.AddIntentContent(intent.GetName(), types.TransactionIntentOld, oldIntentContent.GetFirstPriorityValue(), oldIntentContent)
@@ -331,13 +335,32 @@ func (d *Datastore) lowlevelTransactionSet(ctx context.Context, transaction *typ
 		delSl := deletesOwner.StringSlice()
 		log.Debugf("Deletes Owner: %s \n%s", intent.GetName(), strings.Join(delSl, "\n"))
 
-		// modify intended store per intent
+		// the old entries are stored under the priority of the old intent version, so deletes must address them there.
+		// If the priority changes, all old entries are removed, what remains was re-added above under the new priority.
+		deletePaths := deletesOwner.ToStringSlice()
+		deletePriority := intent.GetPriority()
+		if oldContent := oldIntentContents[intent.GetName()]; len(oldContent) > 0 {
+			deletePriority = oldContent.GetFirstPriorityValue()
+			if deletePriority != intent.GetPriority() {
+				deletePaths = oldContent.ToPathSet().GetPaths().ToStringSlice()
+			}
+		}
+
+		// modify intended store per intent, first the deletes
+		err = d.cacheClient.Modify(ctx, d.Name(), &cache.Opts{
+			Store:    cachepb.Store_INTENDED,
+			Owner:    intent.GetName(),
+			Priority: deletePriority,
+		}, deletePaths, nil)
+		if err != nil {
+			return nil, fmt.Errorf("failed updating the intended store for %s: %w", d.Name(), err)
+		}
+		// then the updates
 		err = d.cacheClient.Modify(ctx, d.Name(), &cache.Opts{
 			Store:    cachepb.Store_INTENDED,
 			Owner:    intent.GetName(),
 			Priority: intent.GetPriority(),
-		}, deletesOwner.ToStringSlice(), updatesOwner)
-
+		}, nil, updatesOwner)
 		if err != nil {
 			return nil, fmt.Errorf("failed updating the intended store for %s: %w", d.Name(), err)
 		}
